@@ -54,6 +54,15 @@ def obligations(tier, kf):
                 if n == 3 and flavor == 'posix':
                     for m in MUTANTS.get(fn, []):
                         obs.append(ob.mutant(m))
+    for base in (0, 1, 2):
+        for n in range(0, nmax + 1):
+            ob = Ob('b_base_path', dict(kf, N=n, flavor='posix', root=n % 4, base=base), T[n],
+                    desc='Path relative to Path base #%d, |s|==%d' % (base, n))
+            obs.append(ob)
+            if n == 2 and base == 0:
+                obs.append(ob.twin())
+            if n == 3 and base == 0:
+                obs.append(ob.mutant('path_no_backslash'))
     pairs = [(1, 1), (2, 1), (1, 2), (2, 2)] if tier == 'quick' else \
         [(1, 1), (2, 1), (1, 2), (2, 2), (3, 1), (3, 2)]
     for (n, m) in pairs:
